@@ -47,6 +47,9 @@ type metricSchemaStore struct {
 	immutable *imap.IntMap[*metric.Schema]
 
 	cache *expirable.LRU[metric.ID, *metric.Schema]
+	// flushGen counts the completed flushes(guarded by lock),
+	// a lookup of the persisted/cached schema is only valid for the generation it started in.
+	flushGen uint64
 
 	lock sync.RWMutex
 }
@@ -64,39 +67,50 @@ func NewMetricSchemaStore(family kv.Family) MetricSchemaStore {
 
 // GetSchema returns metric schema by metric id, return nil if not exist.
 func (s *metricSchemaStore) GetSchema(id metric.ID) (schema *metric.Schema, err error) {
-	schema = s.getSchemaFromMem(id)
+	schema, _, err = s.lookupSchema(id)
+	return schema, err
+}
+
+// lookupSchema returns metric schema by metric id and the flush generation of the lookup.
+func (s *metricSchemaStore) lookupSchema(id metric.ID) (schema *metric.Schema, gen uint64, err error) {
+	schema, gen = s.getSchemaFromMem(id)
 	if schema != nil {
-		return schema, nil
+		return schema, gen, nil
 	}
 	schema, ok := s.cache.Get(id)
 	if ok {
-		return schema, nil
+		return schema, gen, nil
 	}
 	schema, err = s.getSchemaFromKV(id)
 	if err != nil {
-		return nil, err
+		return nil, gen, err
 	}
 	if schema != nil {
-		s.cache.Add(id, schema)
+		s.lock.RLock()
+		// if a flush completed in the meantime, the schema may lack what was flushed, must not cache it
+		if s.flushGen == gen {
+			s.cache.Add(id, schema)
+		}
+		s.lock.RUnlock()
 	}
 	return
 }
 
 // genFieldID generates field id if field not exist.
 func (s *metricSchemaStore) genFieldID(id metric.ID, f field.Meta, limits *models.Limits) (fID field.ID, err error) {
-	schema, err := s.GetSchema(id)
+	schema, gen, err := s.lookupSchema(id)
 	if err != nil {
 		return 0, err
 	}
 	s.lock.Lock()
+	if s.flushGen != gen {
+		// a flush completed after the lookup, the schema may have moved into the kv store, need lookup again
+		s.lock.Unlock()
+		return s.genFieldID(id, f, limits)
+	}
 	defer s.lock.Unlock()
 
-	if schema == nil {
-		// create new schema
-		schema = &metric.Schema{}
-	}
-	// put into schema if schema not exist under mutable store
-	s.mutable.PutIfNotExist(uint32(id), schema)
+	schema = s.schemaForUpdate(id, schema)
 
 	fm, ok := schema.Fields.Find(f.Name)
 	if ok {
@@ -117,19 +131,19 @@ func (s *metricSchemaStore) genFieldID(id metric.ID, f field.Meta, limits *model
 func (s *metricSchemaStore) genTagKeyID(id metric.ID, tagKey []byte, limits *models.Limits,
 	createFn func() uint32,
 ) (tagKeyID tag.KeyID, err error) {
-	schema, err := s.GetSchema(id)
+	schema, gen, err := s.lookupSchema(id)
 	if err != nil {
 		return 0, err
 	}
 	s.lock.Lock()
+	if s.flushGen != gen {
+		// a flush completed after the lookup, the schema may have moved into the kv store, need lookup again
+		s.lock.Unlock()
+		return s.genTagKeyID(id, tagKey, limits, createFn)
+	}
 	defer s.lock.Unlock()
 
-	if schema == nil {
-		// create new schema
-		schema = &metric.Schema{}
-	}
-	// put into schema if schema not exist under mutable store
-	s.mutable.PutIfNotExist(uint32(id), schema)
+	schema = s.schemaForUpdate(id, schema)
 
 	tm, ok := schema.TagKeys.Find(strutil.ByteSlice2String(tagKey))
 	if ok {
@@ -146,6 +160,28 @@ func (s *metricSchemaStore) genTagKeyID(id metric.ID, tagKey []byte, limits *mod
 	}
 	schema.TagKeys = append(schema.TagKeys, tm)
 	return tm.ID, nil
+}
+
+// schemaForUpdate returns the schema object that must receive new fields/tag keys of the metric
+// and makes sure it is in the mutable store(need hold the write lock).
+// The lookup of the caller ran without the lock, so another caller may have registered
+// a schema object for the metric in the meantime, then that one must be used.
+func (s *metricSchemaStore) schemaForUpdate(id metric.ID, schema *metric.Schema) *metric.Schema {
+	key := uint32(id)
+	if current, ok := s.mutable.Get(key); ok {
+		return current
+	}
+	if s.immutable != nil {
+		if current, ok := s.immutable.Get(key); ok {
+			schema = current
+		}
+	}
+	if schema == nil {
+		// create new schema
+		schema = &metric.Schema{}
+	}
+	s.mutable.Put(key, schema)
+	return schema
 }
 
 // getSchemaFromKV gets schema from kv store.
@@ -167,7 +203,7 @@ func (s *metricSchemaStore) getSchemaFromKV(id metric.ID) (schema *metric.Schema
 }
 
 // getSchemaFromMem gets schema from mem store.
-func (s *metricSchemaStore) getSchemaFromMem(id metric.ID) *metric.Schema {
+func (s *metricSchemaStore) getSchemaFromMem(id metric.ID) (*metric.Schema, uint64) {
 	key := uint32(id)
 	getValue := func(mem *imap.IntMap[*metric.Schema]) *metric.Schema {
 		if mem == nil {
@@ -182,9 +218,9 @@ func (s *metricSchemaStore) getSchemaFromMem(id metric.ID) *metric.Schema {
 
 	schema := getValue(s.mutable)
 	if schema != nil {
-		return schema
+		return schema, s.flushGen
 	}
-	return getValue(s.immutable)
+	return getValue(s.immutable), s.flushGen
 }
 
 // PrepareFlush switches mutable/immutable mem store for flusing schema data.
@@ -242,6 +278,7 @@ func (s *metricSchemaStore) Flush() error {
 		return nil
 	})
 	s.immutable = nil
+	s.flushGen++
 	s.cache.Purge()
 	s.lock.Unlock()
 	return nil
